@@ -70,6 +70,15 @@ def run(ctx, R, tier):
             "the receive loop asks for `%s` bytes, not for (at most) the bytes still missing: a later recv can swallow bytes of the next message and the "
             "function returns more than %s bytes" % (unparse(arg) if arg is not None else "?", sizep))
 
+    bufs = {unparse(c.func.value) for c, _ in ctx.cg.calls_of(rx) if isinstance(c.func, ast.Attribute) and c.func.attr == "extend"}
+    binit = [st for st, t, k in stores_in(rx.node) if isinstance(t, ast.Name) and t.id in bufs]
+    in_loop = [st for st in binit if any(any(isinstance(x, ast.Call) and isinstance(x.func, ast.Attribute) and x.func.attr == "recv" for x in ast.walk(l))
+                                         for l in enclosing_loops(st, rx.node))]
+    R.check(len(bufs) == 1 and bool(binit) and not in_loop, "C17-R1", "receive_data|buffer-initialised-once",
+            "the accumulation buffer is created once, outside the receive/retry loops", rx.loc(binit[0]) if binit else rx.loc(),
+            "the accumulation buffer is (re)initialised inside a loop that receives: after a retryable error the fragments gathered so far are dropped and the function "
+            "reads past the end of the message" if in_loop else "no single accumulation buffer found")
+
     # ---------------------------------------------------------------- R2
     n_h = 0
     for f, cfg in ((rx, rcfg), (tx, tcfg)):
@@ -85,7 +94,7 @@ def run(ctx, R, tier):
                 elif classes == ["builtins.OSError"]:
                     n_h += 1
                     rs = [n for st in h.body for n in walk_no_nested(st) if isinstance(n, ast.Raise)]
-                    okc = bool(rs) and all(isinstance(r.exc, ast.Call) and es.class_of_expr(r.exc.func, f) == "Pyro5.errors.ConnectionClosedError" for r in rs)
+                    okc = bool(rs) and all(_raised_class(ctx, f, cfg, r) == "Pyro5.errors.ConnectionClosedError" for r in rs)
                     retry_loop = [l for l in enclosing_loops(t, f.node)]
                     if retry_loop:
                         def fatal(atom, pol):
@@ -103,15 +112,32 @@ def run(ctx, R, tier):
                                 "a socket error is swallowed")
     if n_h < 7:
         raise AnalysisError("socketutil: fewer socket.timeout/socket.error handlers than expected (%d)" % n_h)
-    raises = [n for n in rcfg.nodes if n.kind == "stmt" and isinstance(n.ast, ast.Raise) and isinstance(n.ast.exc, ast.Name)]
-    ok = False
-    for r in raises:
-        var = r.ast.exc.id
-        pstores = [x for st, t, k in stores_in(rx.node) if isinstance(t, ast.Attribute) and t.attr == "partialData" and unparse(t.value) == var for x in rcfg.nodes_for(st)]
-        if pstores and any(rcfg.dominates(x, r) for x in pstores):
-            ok = True
-    R.check(ok, "C17-R2", "receive_data|partialData", "the short-read error carries the bytes received so far", rx.loc(), "the ConnectionClosedError of a short read has no partialData")
-
+    # every ConnectionClosedError raised by receive_data carries the bytes received so far
+    buffers = {unparse(c.func.value) for c, _ in ctx.cg.calls_of(rx) if isinstance(c.func, ast.Attribute) and c.func.attr == "extend"}
+    cc_raises = []
+    seen_r = set()
+    for n in rcfg.nodes:
+        if n.kind == "stmt" and isinstance(n.ast, ast.Raise) and n.ast.exc is not None and id(n.ast) not in seen_r \
+                and _raised_class(ctx, rx, rcfg, n.ast) == "Pyro5.errors.ConnectionClosedError":
+            seen_r.add(id(n.ast))
+            cc_raises.append(n.ast)
+    if len(cc_raises) < 3:
+        raise AnalysisError("receive_data: fewer ConnectionClosedError raise sites than expected (%d)" % len(cc_raises))
+    allr = [x for x in walk_no_nested(rx.node) if isinstance(x, ast.Raise)]
+    for r in cc_raises:
+        hs = [h for t, part in enclosing_trys(r, rx.node) if part == "handler" for h in t.handlers if any(x is r for st in h.body for x in walk_no_nested(st))]
+        where = _where(hs[0], rx) if hs else "short-read"
+        ok = False
+        if isinstance(r.exc, ast.Name):
+            var = r.exc.id
+            for x in rcfg.nodes_for(r):
+                pst = [(st, y) for st, t, k in stores_in(rx.node) if isinstance(t, ast.Attribute) and t.attr == "partialData" and unparse(t.value) == var
+                       and isinstance(st.value, ast.Name) and st.value.id in buffers for y in rcfg.nodes_for(st)]
+                defs = ctx.rd(rx).reaching(x, var)
+                if pst and defs and all(any(rcfg.dominates(y, x) and d.node is not None and rcfg.dominates(d.node, y) for st, y in pst) for d in defs):
+                    ok = True
+        R.check(ok, "C17-R2", "receive_data|partialData@%s" % where, "the ConnectionClosedError raised here carries the bytes received so far (partialData = the accumulation buffer)",
+                rx.loc(r), "this ConnectionClosedError is raised without partialData: the bytes already received are lost to the caller")
     for cq in ("Pyro5.errors.ConnectionClosedError", "Pyro5.errors.TimeoutError", "Pyro5.errors.CommunicationError"):
         p.cls(cq)
         R.check(not es.is_sub(cq, "builtins.OSError"), "C17-R2", "hierarchy|%s-not-OSError" % cq.rsplit(".", 1)[1],
@@ -172,6 +198,11 @@ def run(ctx, R, tier):
         return pol is True and isinstance(atom, ast.Compare) and len(atom.ops) == 1 and isinstance(atom.ops[0], ast.Is) and "gettimeout" in unparse(atom.left) and \
             isinstance(atom.comparators[0], ast.Constant) and atom.comparators[0].value is None
     ok = len(sa) == 1 and all(tcfg.guarded(n, lambda e: edge_has_fact(e, blocking)) for n in ctx.node_of(tx, sa[0]))
+    sa = [c for c, _ in ctx.cg.calls_of(tx) if isinstance(c.func, ast.Attribute) and c.func.attr == "sendall"]
+    looped = [c for c in sa if enclosing_loops(c, tx.node)]
+    R.check(bool(sa) and not looped, "C17-R3", "send_data|sendall-not-retried", "sendall is attempted once: after a failure its progress is unknown, so it is never re-issued from a loop",
+            tx.loc(sa[0]) if sa else tx.loc(),
+            "sendall sits in a retry loop: when it fails with a retryable errno after a partial write, the whole buffer is sent again and the peer receives a duplicated prefix")
     R.check(ok, "C17-R3", "send_data|sendall-only-when-blocking", "sendall is used only for sockets in blocking mode", tx.loc(), "sendall is used on a timeout-mode socket (partial sends are lost on timeout)")
 
     # ---------------------------------------------------------------- R5
@@ -200,6 +231,20 @@ def run(ctx, R, tier):
     bad = sorted(x for x in names if not (x.startswith("errno.") and x[6:] in RETRYABLE))
     R.check(not bad and len(names) >= 3, "C17-R4", "ERRNO_RETRIES|retryable-family", "only EINTR/EAGAIN/EWOULDBLOCK/EINPROGRESS (and their WSA twins) are retried", m.relpath,
             "non-retryable errno values are retried forever: %s" % bad)
+
+
+def _raised_class(ctx, f, cfg, r):
+    """class of the exception a `raise X(...)` / `raise name` statement raises (name: all reaching definitions must construct the same class)"""
+    es = ctx.escape
+    if isinstance(r.exc, ast.Call):
+        return es.class_of_expr(r.exc.func, f)
+    if isinstance(r.exc, ast.Name):
+        out = set()
+        for x in cfg.nodes_for(r):
+            for d in ctx.rd(f).reaching(x, r.exc.id):
+                out.add(es.class_of_expr(d.value.func, f) if d.value is not None and isinstance(d.value, ast.Call) and d.kind == "assign" else None)
+        return out.pop() if len(out) == 1 else None
+    return None
 
 
 def _where(h, f):
